@@ -58,6 +58,14 @@ CHECKS = {
   text='Coq theorems about the sd_path_to_iv regenerated from engine.py (str.lower and SHA-256 uninterpreted): the counter is a function of the lower-cased, forward-slashed path only; for paths outside /backup it is the xor of the two halves of SHA-256 of the normalised path as NUL-terminated UTF-16LE; it is case-insensitive and separator-insensitive (under the stated hypotheses on lower); UTF-16LE encoding of scalar values is injective. setup_sd_key (accepted lengths, ID0) is modelled and run against the implementation. File views are CTR wrappers (C01/C12). Reads, writes, raw backing bytes after writes, ID0, root and opendir views on MemoryFS and OS directories are decided against an independent derivation.',
   note='Trusted: Coq kernel, translator, hand model Sd.v, independent derivation sdcommon.py, PyFilesystem2, Python str.lower/UTF-16. Hypotheses on lower: idempotent and commuting with the backslash replacement (Example with ASCII lower-casing).',
   technique='Rocq/Coq proofs over the regenerated kernel (+ UTF-16 injectivity) + correspondence + independent-derivation oracle'),
+ 'C17': dict(
+  text='Coq theorems over an executable model of IVFCHashTree.get_block (per-level verification caches, deep verification; SHA-256 uninterpreted): any history of block requests on one tree object returns, for each request, the status that verification establishes from the file alone (cache invariant), a block reported valid has every hash on its path up to the master hash matching, an intact initialised chain is reported valid, and stored bytes are served only for valid blocks (filler otherwise). Extracted model compared with IVFCHashTree on hand-made trees with corruptions and blank hashes under random request histories. Whole DIFF/DISA containers: DPFS active view, verified level-4 view, single-bit corruption of data / hash levels / master hashes x prior read history, and the table-hash reject decided against an independent builder and verifier.',
+  note='Partial: the DPFS bitmap selection and the container/descriptor parsing are oracle-only (the bit selector is modelled, not yet proved against a spec). File assumed static while a reader is open. Trusted: Coq kernel, extraction + driver, hand model Ivfc.v (tie 2), builder/verifier save.py.',
+  technique='Rocq/Coq invariant proof over request histories + soundness/completeness of the status function + correspondence + corruption oracle'),
+ 'C18': dict(
+  text='Coq theorem C18_write_consistent over an executable model of IVFCHashTree.write_data (any number of levels, SHA-256 uninterpreted with 32-byte digests): after a write of any data at any offset of a level of a fully consistent tree, the level holds the data laid over its previous contents, no level changes size and every block of every level up to it verifies against the updated hash levels and master hashes -- hence has an intact chain (C18_reopen_verifies), whatever block the write starts in. Extracted model compared with IVFCHashTree under write histories. Whole containers opened read-write: same-session read back, independent verification of the file, re-open with a fresh reader, untouched inactive copies and slack, CMAC for four schemes, read-only refusal.',
+  note='Partial: DPFS copy selection under writes and the descriptor / table hash / CMAC update chain are oracle-only. Trusted: Coq kernel, extraction + driver, hand model IvfcWrite.v (tie 2), builder/verifier save.py, PyCryptodome CMAC.',
+  technique='Rocq/Coq proof by induction over the hash levels (overlay/slice algebra) + correspondence + independent re-verification oracle'),
 }
 
 NOT_YET = 'check not built yet in this session (work in progress; see DESIGN.md section 10 order of work)'
